@@ -10,6 +10,7 @@ pub proof fn lemma_sig_bytes()
 }
 
 //@ fn canonical.rs canonicalize_query_to_string
+//@ params query_parameters
 //@ hideutf8
 //@ props C08 C10 C18 C02 C17
 //@ ret r
